@@ -209,6 +209,29 @@ EXC_ALIASES = {
 }
 
 
+class _Canon(ast.NodeTransformer):
+    """Canonical statement forms, applied to every module before anything is indexed, so that rules see ONE spelling:
+
+    * ``t = t <op> e``  ->  ``t <op>= e``  for a name or a plain attribute chain ``t`` (the two spellings denote the same
+      update for the numbers / bytes this package updates that way; rules speak of "the increment", not of its spelling).
+    """
+
+    @staticmethod
+    def _chain(e) -> bool:
+        while isinstance(e, ast.Attribute):
+            e = e.value
+        return isinstance(e, ast.Name)
+
+    def visit_Assign(self, node: ast.Assign):
+        self.generic_visit(node)
+        v = node.value
+        if len(node.targets) == 1 and isinstance(v, ast.BinOp) and self._chain(node.targets[0]) and self._chain(v.left):
+            t = node.targets[0]
+            if ast.dump(t).replace("Store()", "Load()") == ast.dump(v.left):
+                return ast.copy_location(ast.AugAssign(target=t, op=v.op, value=v.right), node)
+        return node
+
+
 class Program:
     def __init__(self, root: str):
         self.root = os.path.abspath(root)
@@ -248,6 +271,7 @@ class Program:
                 tree = ast.parse(src, filename=p)
             except SyntaxError as e:  # pragma: no cover
                 raise AnalysisError(f"cannot parse {rel}: {e}")
+            tree = _Canon().visit(tree)
             m = Module(modname, p, rel, tree, src, is_pkg)
             self.modules[modname] = m
         self.digest = h.hexdigest()
